@@ -369,7 +369,7 @@ static Case gen_c12()
     // structural edits of the part the tag covers, then a fresh tag (right key): authentic but not written by wencry
     if (g::coin(30))
     {
-      long kind = g::range(0, 6);
+      long kind = g::range(0, 7);
       long ivend = 48 + 20 * T;
       if (kind == 0)
         s = "T:" + std::to_string(g::range(48, ivend + 1)); // cut inside the IV table (48 = nothing left to hash)
@@ -379,6 +379,8 @@ static Case gen_c12()
         s = "A:" + hex(g::raw((size_t)g::range(1, 40))); // bytes appended, any alignment
       else if (kind == 3)
         s = "D:" + std::to_string(g::range(ivend, (long)flen - 15)) + ":16"; // a block dropped
+      else if (kind == 6) // the IV the streams start from set to all ones / almost all ones (a counter that wraps at once)
+        s = "S:48:" + std::string(g::coin(50) ? "ffffffffffffffffffffffffffffffff" : "fffffffffffffffffffffffffffffffe");
       else if (kind == 4)
         s = "X:" + std::to_string(g::range(48, (long)flen)) + ":" + std::to_string(1 << g::range(0, 8)); // a bit in the IVs / body
       else
